@@ -102,6 +102,8 @@ def _boolv(x):
 
 
 def _pow(b, e):
+    if mp.isinf(b) or mp.isinf(e):
+        raise Undef()          # powers with an infinite operand are not pinned down here
     if b > 0:
         if abs(e * mp.log(b)) > 1e4:
             raise Undef()
@@ -121,6 +123,16 @@ def _pow(b, e):
 
 def _g(f, dom=None):
     def w(x):
+        if mp.isinf(x):
+            # <infinity/> as an operand: the limit in the extended reals where mpmath has one (exp(-inf) = 0,
+            # arctan(inf) = pi/2, tanh(inf) = 1, cosh(-inf) = +inf, ...), no value otherwise (sin(inf), coth(inf))
+            try:
+                r = f(x)
+            except (ValueError, ZeroDivisionError, OverflowError):
+                raise Undef()
+            if isinstance(r, mp.mpc) or mp.isnan(r):
+                raise Undef()
+            return r
         if dom is not None and not dom(x):
             raise Undef()
         try:
@@ -138,7 +150,7 @@ def _inv(f):
 
 
 # A&S 4.3 / 4.4 / 4.5 / 4.6 at 40 digits; arccot x = arctan(1/x) (branch of the implementation, DESIGN section 6)
-_small = lambda x: abs(x) < 1e4
+_small = lambda x: abs(x) < 1e4 or mp.isinf(x)
 UNARY = {
     'exp': _g(mp.exp, _small), 'ln': _g(mp.log, lambda x: x > 0), 'abs': _g(abs), 'floor': _g(mp.floor), 'ceiling': _g(mp.ceil),
     'sin': _g(mp.sin), 'cos': _g(mp.cos), 'tan': _g(mp.tan),
@@ -223,7 +235,9 @@ def operand(t, env):
             return +mp.e
         if tag in ('true', 'false'):
             return tag == 'true'
-        raise Undef()
+        if tag == 'infinity':
+            return mp.inf              # MathML 2 4.4.12.15: the notion of (positive) infinity; extended real +inf
+        raise Undef()                  # notanumber: no value
     if tag == 'piecewise':
         return piecewise(ch, env)
     if tag == 'apply':
@@ -431,7 +445,7 @@ def apply(ch, env):
             return a / b
         if op == 'power':
             return _pow(a, b)
-        if b == 0:
+        if b == 0 or mp.isinf(a) or mp.isinf(b):
             raise Undef()
         return a - mp.floor(a / b) * b        # floored: sign of the divisor (DESIGN: choice of the implementation)
     if n != 1:
@@ -453,9 +467,9 @@ def spec_value(tree, env):
     except (Undef, OverflowError, ZeroDivisionError):
         return ('undef',)
     if isinstance(v, mp.mpf):
-        if not mp.isfinite(v) or abs(v) > 1e300:
+        if mp.isnan(v) or (mp.isfinite(v) and abs(v) > 1e300):
             return ('undef',)
-        v = float(v)
+        v = float(v)               # +-inf stays: only <infinity/> produces it (exp, cosh ... refuse large arguments)
     return ('v', v)
 
 
@@ -515,6 +529,10 @@ def _num(res):
         v = res.evalf(30)
     except Exception:
         return None
+    if v is sympy.oo:
+        return math.inf
+    if v is sympy.S.NegativeInfinity:
+        return -math.inf
     if v.is_Float or v.is_Integer or v.is_Rational:
         f = float(v)
         return f if math.isfinite(f) else None
@@ -711,6 +729,8 @@ def _name_of(code):
 def close(a, b, tol=1e-7):
     if isinstance(a, bool) or isinstance(b, bool):
         return a is b
+    if math.isinf(a) or math.isinf(b):
+        return a == b
     return abs(a - b) <= tol * max(1.0, abs(a), abs(b))
 
 
